@@ -24,6 +24,7 @@ class Scen(object):
     self.info = {}
     self.splits = []
     self.mono = []
+    self.cong = []
     self.replay = None        # {'class': name, 'kwargs': {k: python value | z3 expr}, ...}
 
   def claim(self, name, goal):
@@ -233,6 +234,9 @@ def _run_clause(case, cname, per_path, timeout, known_entries, res):
       except Exception as e:  # pylint: disable=broad-except
         out["reason"] += " known-finding exclude failed to evaluate: %s" % e
     ax = VC.all_axioms(base + [x for _, x in excl], hints)
+    for (cx, ca, cb) in (getattr(s, "cong", []) if s is not None else []):
+      # congruence of multiplication: a == b  =>  x*a == x*b   (valid in any ring)
+      ax.append(z3.Implies(ca == cb, cx * ca == cx * cb))
     for (ma, mb, mc) in (getattr(s, "mono", []) if s is not None else []):
       # ordered-field fact: a <= b and c >= 0  =>  a*c <= b*c   (valid for all reals)
       ax.append(z3.Implies(z3.And(ma <= mb, mc >= 0), ma * mc <= mb * mc))
